@@ -52,10 +52,10 @@ prop("C04", [
      "args": {"quick": ["--K=2", "--timeout-ms=10000", "--deadline-s=150"],
               "thorough": ["--K=3", "--timeout-ms=20000", "--deadline-s=1200"]}},
 ],
-    rule="one case = one sequence of <=K events on one connection; server side: 11 request events (bodyless, query, "
+    rule="one case = one sequence of <=K events on one connection; server side: 13 request events (bodyless, query, "
          "cookie, Content-Length, chunked, with header; abandoned by an error: length+chunked, bad chunk after a "
          "chunk, unknown method, bad version, oversize in mid-body) x 3 deliveries (whole, cut inside, byte by byte) "
-         "through a real Http::Handler + Tcp::Transport over a socketpair; client side: 8 response events x 3 "
+         "through a real Http::Handler + Tcp::Transport over a socketpair; client side: 9 response events x 3 "
          "deliveries through a real Experimental::Connection::handleResponsePacket; oracle: k-th observation equals "
          "the fresh-connection observation and the parser is back in the fresh state; states = distinct "
          "(parser state, observation) pairs; transitions = event-loop steps / packets; non-trivial = sequences of "
@@ -98,3 +98,42 @@ prop("C02", [
                                  "their raw header text is still compared"],
     bounds={"quick": "thinned request product, 5 codes, stream programs <= 2 ops",
             "thorough": "full request product, 64 codes, stream programs <= 3 ops (until the deadline)"})
+
+prop("C10", [
+    {"name": "c10_find", "sources": ["c10_router.cc"], "flavour": "asan",
+     "args": {"quick": ["--mode=find", "--T=2", "--timeout-ms=120000", "--deadline-s=170"]}},
+    {"name": "c10_find_fast", "sources": ["c10_router.cc"], "flavour": "plain",
+     "args": {"thorough": ["--mode=find", "--T=3", "--timeout-ms=3000000", "--deadline-s=2400"]}},
+    {"name": "c10_e2e", "sources": ["c10_router.cc"], "flavour": "asan",
+     "args": {"quick": ["--mode=e2e", "--last=120", "--timeout-ms=120000", "--deadline-s=170"],
+              "thorough": ["--mode=e2e", "--timeout-ms=600000", "--deadline-s=1500"]}},
+],
+    rule="find: one case = a first pattern i; every route table {i}, {i,j}, ({i,j,k}) over the 3xx patterns of 1..3 "
+         "segments from {a,b,:x,:y,:o?,:p?,*} x all 121 paths of <=4 segments over {a,b,c} through the real "
+         "SegmentTreeNode::findRoute vs the reference matcher (implementation's answer must be one the reference can "
+         "produce under some sibling order), plus add-all/remove-one vs table-without-it; e2e: (GET pattern i, POST "
+         "pattern j, optional PUT j) x paths of <=3 segments x 3 methods x slash decorations through Router::route "
+         "with a real ResponseWriter: one handler invocation with the reference's bindings, else 405 with the exact "
+         "Allow set, else 404 / not-found handler exactly once; states = distinct tables, transitions = lookups / "
+         "event-loop steps",
+    assumptions=COMMON_ASSUME,
+    bounds={"quick": "all tables of <=2 patterns (find), first 120 patterns (e2e)",
+            "thorough": "all tables of <=3 patterns (find, -O2 build, until the deadline), all patterns (e2e)"})
+
+prop("C11", [
+    {"name": "c11_promises", "sources": ["c11_promises.cc"], "flavour": "asan",
+     "args": {"quick": ["--K=4", "--comb=2", "--prefix=3", "--timeout-ms=120000", "--deadline-s=170"],
+              "thorough": ["--K=5", "--comb=3", "--prefix=3", "--timeout-ms=1200000", "--deadline-s=2400"]}},
+],
+    rule="one case = all programs of exactly K operations below one 3-operation prefix; operations: create "
+         "(pending / resolved / rejected Promise<int>), then(h, {value, void, promise-returning with inner resolved / "
+         "rejected / pending} x {IgnoreException, Throw, custom handler}), whenAll variadic / range and whenAny over "
+         "1..comb handles (both argument orders), resolve / reject of any pending root or inner promise; a program is "
+         "a linearisation, so all attach/settle orders are covered; every program runs on the real async.h templates "
+         "and its multiset of (continuation, outcome) log entries is compared with a reference interpreter of the "
+         "property text (undetermined promises - after a non-rethrowing handler - are not compared); executions = "
+         "programs; non-trivial = programs in which at least one continuation must run; states = distinct outcome shapes",
+    assumptions=COMMON_ASSUME + ["single-threaded programs (cross-thread settle/attach is C12)",
+                                 "derived promises of void-returning continuations and of non-rethrowing rejection "
+                                 "handlers are left open by the property and not compared"],
+    bounds={"quick": "K=4, combinators over <=2 inputs", "thorough": "K=5, combinators over <=3 inputs (until the deadline)"})
